@@ -138,7 +138,7 @@ func registerSched() {
 	run.Register(&SchedCheck{Id: "C16", Profile: "order", Quick: 1000, Thorough: 8000, Oracle: cyc(oracle.CheckC16), SkipFaulty: true,
 		RuleText: genRule + "Clones = pod groups created by the generator from one template in one leaf queue (annotation verif/clone-class). Non-trivial: a case in which, among comparable clones (all pods pending, same preemptibility), one was placed by allocate and another was not.",
 		Assume:   []string{"clones carry no inter-pod affinity and no topology constraint"}})
-	run.Register(&SchedCheck{Id: "C14", Profile: "accounting", Quick: 240, Thorough: 4000,
+	run.Register(&SchedCheck{Id: "C14", Profile: "accounting", Quick: 800, Thorough: 6000,
 		NewMonitor: func() *mon.Monitor { return mon.New(true, false) },
 		NonTrivialFromStats: func(c map[string]int) bool {
 			return c["allocate-event"]+c["deallocate-event"] >= 20 && c["event_status_Releasing"] > 0 && c["event_status_Pipelined"] > 0
@@ -146,7 +146,7 @@ func registerSched() {
 		RuleText: genRule + "Online monitor plugin (last plugin of the last tier): after every Allocate/Deallocate event of every action and solver simulation, after OpenSession and after each action, nodes (closed forms + rebuild with NewNodeInfo/AddTask), workloads, pod sets, queues and vector==structured are recomputed from the pods. Non-trivial: a case whose sessions saw >= 20 events including Releasing and Pipelined transitions.",
 		Assume: []string{"whole-GPU Idle/Releasing are compared against a node rebuilt with the system's own constructor in snapshot order (reservation pods, non-pipelined, pipelined); skipped when a GPU group holds only pipelined pods (insertion order legitimately matters)",
 			"queue Request is only checked implicitly (it is not updated by events)"}})
-	run.Register(&SchedCheck{Id: "C13", Profile: "accounting", Quick: 240, Thorough: 4000,
+	run.Register(&SchedCheck{Id: "C13", Profile: "accounting", Quick: 800, Thorough: 6000,
 		NewMonitor: func() *mon.Monitor { return mon.New(false, true) },
 		NonTrivialFromStats: func(c map[string]int) bool {
 			return c["discards_checked"]+c["rollbacks_checked"] >= 2 && c["commits_checked"] >= 1
